@@ -76,6 +76,24 @@ func (e *FnEnc) run() {
 			// a method is called on a non-nil receiver in every execution that reaches its body's field accesses
 		}
 	}
+	e.ghosts = map[string]HeapVar{}
+	if e.con != nil {
+		for _, g := range e.con.Ghosts {
+			srt := e.W.ghostSort(g.Type, e.fn)
+			if srt == "" {
+				e.bindFail("ghost "+g.Name, "unknown ghost type "+g.Type)
+				continue
+			}
+			hv := HeapVar{"GH." + mangle(g.Name), srt}
+			e.ghosts[g.Name] = hv
+			if _, ok := e.heapVars[hv.Name]; !ok {
+				e.heapVars[hv.Name] = hv
+				e.emit(fmt.Sprintf("(declare-fun %s@0 () %s)", hv.Name, hv.Sort))
+				e.initState[hv.Name] = hv.Name + "@0"
+				e.cur[hv.Name] = hv.Name + "@0"
+			}
+		}
+	}
 	e.W.globalFacts(e)
 	// lets and requires
 	if e.con != nil {
@@ -95,6 +113,19 @@ func (e *FnEnc) run() {
 				v.T = e.define("let."+mangle(l.Name), env.sortOf(v), v.T)
 			}
 			e.lets[l.Name] = v
+		}
+		for _, in := range e.con.Inits {
+			hv, ok := e.ghosts[in.Name]
+			if !ok {
+				e.bindFail("init "+in.Name, "no such ghost variable")
+				continue
+			}
+			v, err := env.EvalVal(in.Expr)
+			if err != nil {
+				e.bindFail("init "+in.Name, err.Error())
+				continue
+			}
+			e.setHeap(hv, v.T)
 		}
 		for i, c := range e.con.Requires {
 			if !clauseActive(c, e.prop) {
@@ -363,6 +394,27 @@ func (e *FnEnc) loopModSet(li *loopInfo) map[string]bool {
 			}
 		}
 	}
+	if e.con != nil {
+		if lc := e.con.Loops[li.ordinal]; lc != nil {
+			for _, u := range lc.Updates {
+				if hv, ok := e.ghosts[u.Name]; ok {
+					mod[hv.Name] = true
+				}
+			}
+		}
+		// ghost variables updated by inner loops
+		for _, inner := range e.loopList {
+			if inner != li && li.blocks[inner.header] {
+				if lc := e.con.Loops[inner.ordinal]; lc != nil {
+					for _, u := range lc.Updates {
+						if hv, ok := e.ghosts[u.Name]; ok {
+							mod[hv.Name] = true
+						}
+					}
+				}
+			}
+		}
+	}
 	if all {
 		for name := range e.heapVars {
 			if !strings.HasPrefix(name, "VIS.") && !strings.HasPrefix(name, "POS.") {
@@ -475,7 +527,7 @@ func (e *FnEnc) loopHeader(b *ssa.BasicBlock, li *loopInfo, fwd []*ssa.BasicBloc
 		}
 		old := e.heapIn(pre, hv)
 		nw := e.havocHeap(hv)
-		if strings.HasPrefix(name, "VIS.") || strings.HasPrefix(name, "POS.") {
+		if strings.HasPrefix(name, "VIS.") || strings.HasPrefix(name, "POS.") || strings.HasPrefix(name, "GH.") {
 			continue
 		}
 		// frame: objects that existed before the loop and are not declared modified keep their value
@@ -577,7 +629,34 @@ func (e *FnEnc) backEdge(from *ssa.BasicBlock, li *loopInfo) {
 		}
 	}
 	saveG, saveC := e.curGuard, e.cur
+	st = copyState(st)
 	e.curGuard, e.cur = g, st
+	if lc != nil && len(lc.Updates) > 0 {
+		envU := e.specEnv(st, e.initState, over)
+		envU.loopOrd = li.ordinal
+		envU.pre = li.preState
+		envP := e.specEnv(li.hdrState, e.initState, nil)
+		envP.loopOrd = li.ordinal
+		envP.pre = li.preState
+		envU.prevEnv = envP
+		newVals := map[string]string{}
+		for _, u := range lc.Updates {
+			hv, ok := e.ghosts[u.Name]
+			if !ok {
+				e.bindFail("update "+u.Name, "no such ghost variable")
+				continue
+			}
+			v, err := envU.EvalVal(u.Expr)
+			if err != nil {
+				e.bindFail(fmt.Sprintf("loop%d.update.%s", li.ordinal, u.Name), err.Error()+" in "+u.Src)
+				continue
+			}
+			newVals[hv.Name] = e.define(hv.Name, hv.Sort, v.T)
+		}
+		for k, v := range newVals {
+			st[k] = v
+		}
+	}
 	if e.con != nil {
 		e.oblige(&Obligation{Name: fmt.Sprintf("cover.loop%d.backedge@b%d", li.ordinal, from.Index), Kind: "cover", Clause: "loop body reachable under the invariant", Guard: g, Goal: "false"})
 	}
@@ -608,7 +687,7 @@ func (e *FnEnc) backEdge(from *ssa.BasicBlock, li *loopInfo) {
 	mod := e.loopModSet(li)
 	for _, name := range sortedKeys(mod) {
 		hv, ok := e.heapVars[name]
-		if !ok || name == AllocVar.Name || strings.HasPrefix(name, "VIS.") || strings.HasPrefix(name, "POS.") {
+		if !ok || name == AllocVar.Name || strings.HasPrefix(name, "VIS.") || strings.HasPrefix(name, "POS.") || strings.HasPrefix(name, "GH.") {
 			continue
 		}
 		nw := e.heapIn(st, hv)
@@ -652,8 +731,11 @@ func (e *FnEnc) ret(r *ssa.Return) {
 	}
 	// frame of the whole function: pre-existing objects not in modifies are unchanged
 	for _, name := range sortedKeys(e.heapVars) {
+		if e.con.NoFrame {
+			break
+		}
 		hv := e.heapVars[name]
-		if name == AllocVar.Name || strings.HasPrefix(name, "VIS.") || strings.HasPrefix(name, "POS.") {
+		if name == AllocVar.Name || strings.HasPrefix(name, "VIS.") || strings.HasPrefix(name, "POS.") || strings.HasPrefix(name, "GH.") {
 			continue
 		}
 		nw := e.heap(hv)
@@ -697,6 +779,9 @@ func (e *FnEnc) specEnv(st, old State, phiOver map[*ssa.Phi]Val) *Env {
 }
 
 func (e *FnEnc) lookupName(env *Env, name string, phiOver map[*ssa.Phi]Val) (Val, bool) {
+	if hv, ok := e.ghosts[name]; ok {
+		return Val{T: e.heapIn(env.st, hv), Sort: hv.Sort, Ty: goTypeOfSort(hv.Sort)}, true
+	}
 	for _, p := range e.fn.Params {
 		if p.Name() == name {
 			return e.vals[p], true
@@ -878,6 +963,13 @@ func (e *FnEnc) contractCall(v ssa.Value, con *FuncContract, callee *ssa.Functio
 		if len(args) > 0 {
 			env.vars["recv"] = args[0]
 		}
+		if sig != nil && sig.Params().Len() == len(args)-1 {
+			for k := 0; k < sig.Params().Len(); k++ {
+				if n := sig.Params().At(k).Name(); n != "" && n != "_" {
+					env.vars[n] = args[k+1]
+				}
+			}
+		}
 	}
 	for _, a := range args {
 		if a.T == "" && a.Loc != nil {
@@ -902,14 +994,11 @@ func (e *FnEnc) contractCall(v ssa.Value, con *FuncContract, callee *ssa.Functio
 		if !clauseActive(c, e.prop) {
 			continue
 		}
-		t, err := env.EvalBool(c.Expr)
 		name := fmt.Sprintf("call.%s.requires%d@%s", mangle(con.Name), k+1, e.posOf(in))
-		if err != nil {
-			e.bindFail(name, err.Error()+" in "+c.Src)
-			continue
+		e.obligeClause(env, c, name, "pre", e.curGuard, e.posOf(in))
+		if t, err := env.EvalBool(c.Expr); err == nil {
+			e.assume(t)
 		}
-		e.oblige(&Obligation{Name: name, Kind: "pre", Clause: c.Src, Tags: c.Tags, Guard: e.curGuard, Goal: t, Pos: e.posOf(in)})
-		e.assume(t)
 	}
 	// havoc declared modifies
 	mods := map[string][]modT{}
@@ -922,10 +1011,21 @@ func (e *FnEnc) contractCall(v ssa.Value, con *FuncContract, callee *ssa.Functio
 		nw := e.havocHeap(hv)
 		e.assume(e.frameFact(nw, old, "", mods[name]))
 	}
+	if con.NoFrame {
+		e.havocAll(con.Name + " (noframe contract)")
+	}
 	oa := e.alloc()
 	na := e.declare("alloc", "Int")
 	e.cur[AllocVar.Name] = na
 	e.assume(sx(">=", na, oa))
+	// the callee's ghost variables are existentially quantified for the caller
+	for _, g := range con.Ghosts {
+		if callee != nil {
+			if srt := e.W.ghostSort(g.Type, callee); srt != "" {
+				env.vars[g.Name] = Val{T: e.declare("ghost."+mangle(g.Name), srt), Sort: srt, Ty: goTypeOfSort(srt)}
+			}
+		}
+	}
 	// results
 	var res []Val
 	rs := sig.Results()
@@ -973,4 +1073,16 @@ func (e *FnEnc) obligeClause(env *Env, c Clause, name, kind, guard, pos string) 
 		}
 		e.oblige(&Obligation{Name: n, Kind: kind, Clause: c.Src, Tags: c.Tags, Guard: guard, Goal: pt, Pos: pos})
 	}
+}
+
+func (e *FnEnc) revealed(name string) bool {
+	if e.con == nil {
+		return false
+	}
+	for _, r := range e.con.Reveals {
+		if r == name {
+			return true
+		}
+	}
+	return false
 }
